@@ -331,7 +331,8 @@ MANIFEST = dict(
     text="Proof: for every integer/char target (1..8 bytes) and every source, the model's int(ffi.cast(T,x)) equals the "
          "unique value of T's range congruent to trunc(x) modulo 2^bits (reduce, proved canonical), 0/1 by non-zeroness "
          "for _Bool (of x, not of trunc x), identity on in-range values, and pointer->(u)intptr_t->pointer returns the "
-         "address. Hand model tied on every run by casting all source kinds to all target types on the scratch build "
+         "address; the cast succeeds (COk) for every listed source kind, and the model makes the code's error outcomes "
+         "explicit for the others (str/bytes of another length, non-numbers: TypeError; inf: OverflowError; NaN: ValueError). Hand model tied on every run by casting all source kinds to all target types on the scratch build "
          "and comparing with the definition, with gcc, and with the model.",
     note="Trusted: Coq kernel; hand model C04/Model.v (differential tie); CPython float.__int__; gcc; ctypes for true "
          "addresses. 'char' is read as an unsigned code unit (cffi's documented behaviour). inf/nan and non-number "
